@@ -24,7 +24,8 @@ that the outcome is the hand model's `Codec.toDb` / `Codec.toPy` function of the
 * float arithmetic is NOT interpreted beyond the model's `floatClass`: `v != v // 1` is true for a float whose `repr`
   shows a fractional part or nan / inf, false for an integral one (`Cfg.floatFrac`), `int(v)` of an integral float is the
   integer its `repr` denotes (`Cfg.intOfFloat`; the ForeignKey configurations leave `int(<float>)` and
-  `str(<uuid>)` uninterpreted, as the hand model does); `bool(v)` is interpreted on ints only;
+  `str(<uuid>)` uninterpreted, as the hand model does — the fractional / nan / inf test `v != v // 1` of c408a4f is
+  interpreted there too); `bool(v)` is interpreted on ints only;
 * `int(v)`: ints, bools, `str` by `Codec.intText` (ValueError when there is no digit at all, uninterpreted for the other
   digit-bearing spellings), TypeError for date/time records; `str(v)`: str, int (`reprInt`), `str(bytes, 'ascii')`,
   `bytes(str, 'ascii')` (ValueError unless ASCII); `Decimal(v)`: int and bool (`Decimal(5) ↦ '5'`), everything else
